@@ -150,7 +150,7 @@ func population(cfg *PropCfg, tier string, seed uint64) []ProgSpec {
 			}
 		}
 		sort.Ints(ms)
-		sp := ProgSpec{ID: id, Schema: s, Bop: s.PrintLayout(schema.Layout{Indent: "    "}), Masks: ms}
+		sp := ProgSpec{ID: id, Schema: s, Bop: s.PrintLayout(schema.Layout{Indent: "    ", Comments: true, Block: i%3 == 1}), Masks: ms}
 		if s.HasLib() {
 			sp.Bop = s.PrintApp("lib.bop") // informative only: the per-mask files are written at build time
 		}
